@@ -96,6 +96,12 @@ class Ctx:
         self.notes.append(s)
         print('NOTE', s, flush=True)
 
+    def sample_first(self, items):
+        """evidence sample: the first of `items`, if there is one (results of changed code may lack the kind asked for)"""
+        items = list(items)
+        if items:
+            self.sample(items[0])
+
     def extra(self, what):
         """A mismatch found by a specification-growth leg, i.e. about behaviour OUTSIDE the statement of this property:
         recorded in the evidence and printed, but not a verdict (it must not raise an alarm for a property that holds)."""
